@@ -183,7 +183,9 @@ P("C11", module="AJ.Props.C11All", extra=[("AJ.Props.C11", ["C11"]), ("AJ.Props.
   "is never produced into an absent destination. Pairs (input, filter) are "
   "run through the real library, compared with the model and with the projection of the unfiltered result computed independently; memory requested by both runs is compared.",
   level_note="the memory clause is checked on the implementation only (three measures from the allocator ledger); two known findings about it",
-  suites=lambda tier: [S.FilterSuite(cfg=DEF), S.FilterSuite(cfg=CFG_ALL, n=2500 if tier == "quick" else 100000), S.FilterSuite(cfg={"USE_DOUBLE": 0}, n=2000 if tier == "quick" else 80000)],
+  suites=lambda tier: [S.FilterSuite(cfg=DEF), S.FilterSuite(cfg=CFG_ALL, n=2500 if tier == "quick" else 100000), S.FilterSuite(cfg={"USE_DOUBLE": 0}, n=2000 if tier == "quick" else 80000),
+                       S.JsonDocFSuite(cfg=DEF, n=1500 if tier == "quick" else 120000), S.JsonDocFSuite(cfg=CFG_ALL, n=600 if tier == "quick" else 50000),
+                       S.JsonDocFSuite(cfg=G["tiny1"], n=400 if tier == "quick" else 40000), S.JsonDocFSuite(cfg=G["len1"], n=400 if tier == "quick" else 40000)],
   partial=["memory clause"])
 
 P("C12", module="AJ.Props.C12All", extra=[("AJ.Props.C12", ["C12"]), ("AJ.Props.C12Print", ["C12"])],
